@@ -45,7 +45,7 @@ theorem rd_le {e : Env} {i : Nat} {c : UInt8} (h : e.rd i = some c) : i ≤ e.n 
 theorem rd_some_of_le (e : Env) {i : Nat} (h : i ≤ e.n) : ∃ c, e.rd i = some c := by
   unfold Env.rd Env.n at *
   by_cases h1 : i < e.s.size
-  · exact ⟨_, by simp [h1]⟩
+  · exact ⟨e.s[i], by simp [h1]⟩
   · have : i = e.s.size := by omega
     exact ⟨0, by simp [this]⟩
 
@@ -93,6 +93,12 @@ theorem tri_mono {α} {e : Env} {st : St} {m : M α} {Q Q' : α → St → Prop}
     (h : Tri e st m Q) (hq : ∀ a st', Q a st' → Q' a st') : Tri e st m Q' := by
   obtain ⟨a, st', hm, h⟩ := h
   exact ⟨a, st', hm, hq _ _ h⟩
+
+theorem tri_ite {α} {e : Env} {st : St} {c : Prop} [Decidable c] {A B : M α} {Q : α → St → Prop}
+    (hT : c → Tri e st A Q) (hF : ¬c → Tri e st B Q) : Tri e st (if c then A else B) Q := by
+  by_cases h : c
+  · simpa [h] using hT h
+  · simpa [h] using hF h
 
 theorem tri_eof {e : Env} {st : St} {Q : Bool → St → Prop} (h : Q (decide (st.pos ≥ st.len)) st) : Tri e st eof Q :=
   ⟨_, st, rfl, h⟩
@@ -173,9 +179,7 @@ theorem tri_ddDebug {e : Env} {st : St} {Q : Unit → St → Prop} (k : Nat) (hk
   unfold ddDebug
   apply tri_bind
   apply tri_posBack k hk
-  apply tri_bind
   apply tri_modifySt
-  apply tri_pure
   exact h _ rfl rfl (by simp [exN])
 
 /-- `DD_DEBUG_CONSUME(dd, c)` -/
@@ -184,7 +188,7 @@ theorem tri_debugConsume {e : Env} {st : St} {Q : Bool → St → Prop} (c : UIn
     (h : ∀ b st', st'.len = st.len → exN st ≤ exN st' →
           (b = true → st'.pos = st.pos + 1 ∧ st.pos + 1 ≤ st.len ∧ exN st' = exN st ∧ e.rd st.pos = some c) →
           (b = false → exN st' = 1 ∧ st.pos ≤ st'.pos + (1 - exN st) ∧ st'.pos ≤ st.pos + 1 ∧
-              (st'.pos = st.pos + 1 → st.pos + 1 ≤ st.len)) → Q b st') :
+              (st'.pos = st.pos + 1 → st.pos + 1 ≤ st.len) ∧ (st.pos < st.len → st.pos ≤ st'.pos)) → Q b st') :
     Tri e st (debugConsume c) Q := by
   unfold debugConsume
   apply tri_bind
@@ -204,9 +208,10 @@ theorem tri_debugConsume {e : Env} {st : St} {Q : Bool → St → Prop} (c : UIn
     by_cases hex : st1.expected = true
     · have h1 : exN st1 = 1 := by simp [exN, hex]
       simp only [hex, Bool.not_true, Bool.false_eq_true, ↓reduceIte]
-      refine tri_pure (h false st1 hl1 (by omega) (by simp) (fun _ => ⟨h1, ?_, ?_, ?_⟩))
+      refine tri_pure (h false st1 hl1 (by omega) (by simp) (fun _ => ⟨h1, ?_, ?_, ?_, ?_⟩))
       · rcases hx with ⟨hp1, _, _⟩ | ⟨hp1, _, _⟩ <;> omega
       · rcases hx with ⟨hp1, _, _⟩ | ⟨hp1, _, _⟩ <;> omega
+      · rcases hx with ⟨hp1, _, _⟩ | ⟨hp1, hh, _⟩ <;> omega
       · rcases hx with ⟨hp1, _, _⟩ | ⟨hp1, hh, _⟩ <;> omega
     · have hex' : st1.expected = false := by simpa using hex
       have h0 : exN st1 = 0 := by simp [exN, hex']
@@ -218,12 +223,411 @@ theorem tri_debugConsume {e : Env} {st : St} {Q : Bool → St → Prop} (c : UIn
         · omega
       apply tri_bind
       apply tri_modifySt
-      refine tri_pure (h false _ hl1 (by simp [exN]; exact exN_le _) (by simp) (fun _ => ⟨by simp [exN], ?_, ?_, ?_⟩))
+      refine tri_pure (h false _ hl1 (by simp [exN]; exact exN_le _) (by simp) (fun _ => ⟨by simp [exN], ?_, ?_, ?_, ?_⟩))
       · simp only
         rcases hx with ⟨hp1, _, _⟩ | ⟨hp1, _, _⟩ <;> omega
       · simp only
         rcases hx with ⟨hp1, _, _⟩ | ⟨hp1, _, _⟩ <;> omega
       · simp only
         rcases hx with ⟨hp1, _, _⟩ | ⟨hp1, hh, _⟩ <;> omega
+      · simp only
+        rcases hx with ⟨hp1, _, _⟩ | ⟨hp1, hh, _⟩ <;> omega
+
+/-! ## summary rules (fresh post-states, invariant pieces handed on) -/
+
+section rules
+variable {e : Env} {st : St}
+
+/-- what is known about a peeked byte (opaque to `omega`; unfolded on demand by `fin`) -/
+def PeekFact (e : Env) (st : St) (k : Nat) (c : UInt8) : Prop :=
+  (c.toNat = 0 ∨ c.toNat = 46 ∨ c.toNat = 64 ∨ st.pos + k < st.len) ∧ (c.toNat ≠ 0 → e.rd (st.pos + k) = some c)
+
+theorem s_peek {Q : UInt8 → St → Prop} (k : Nat) (hl : st.len ≤ e.n) (hs : Stop e st.len)
+    (h : ∀ c, PeekFact e st k c → Q c st) : Tri e st (peek k) Q :=
+  tri_peek k hl hs fun c h1 h2 => h c ⟨h1, h2⟩
+
+theorem s_eof {Q : Bool → St → Prop} (hT : st.len ≤ st.pos → Q true st) (hF : st.pos < st.len → Q false st) :
+    Tri e st eof Q := by
+  apply tri_eof
+  by_cases h : st.pos ≥ st.len
+  · simpa [h] using hT h
+  · simpa [h] using hF (by omega)
+
+theorem s_curr {Q : UInt8 → St → Prop} (hl : st.len ≤ e.n) (hs : Stop e st.len)
+    (h : ∀ c, PeekFact e st 0 c → Q c st) : Tri e st curr Q :=
+  tri_curr hl hs fun c h1 h2 => h c ⟨by simpa using h1, by simpa using h2⟩
+
+theorem s_consumeN {Q : UInt8 → St → Prop} (k : Nat) (hl : st.len ≤ e.n) (hp : st.pos ≤ e.n) (hs : Stop e st.len)
+    (hFail : ∀ c st', st'.len = st.len → st'.len ≤ e.n → st'.pos ≤ e.n → Stop e st'.len → exN st' = exN st →
+          st'.pos = st.pos → st.len < st.pos + k → c.toNat = 0 → Q c st')
+    (hOk : ∀ c st', st'.len = st.len → st'.len ≤ e.n → st'.pos ≤ e.n → Stop e st'.len → exN st' = exN st →
+          st'.pos = st.pos + k → st.pos + k ≤ st.len → (c.toNat ≠ 0 → e.rd st.pos = some c) → Q c st') :
+    Tri e st (consumeN k) Q := by
+  apply tri_consumeN k hl hs
+  intro c st' h1 h2 h3
+  rcases h3 with ⟨h3, h4, h5⟩ | ⟨h3, h4, h5⟩
+  · exact hFail c st' h1 (by omega) (by omega) (by rw [h1]; exact hs) h2 h3 (by omega) h5
+  · exact hOk c st' h1 (by omega) (by omega) (by rw [h1]; exact hs) h2 h3 h4 h5
+
+theorem s_consume {Q : UInt8 → St → Prop} (hl : st.len ≤ e.n) (hp : st.pos ≤ e.n) (hs : Stop e st.len)
+    (hFail : ∀ c st', st'.len = st.len → st'.len ≤ e.n → st'.pos ≤ e.n → Stop e st'.len → exN st' = exN st →
+          st'.pos = st.pos → st.len < st.pos + 1 → c.toNat = 0 → Q c st')
+    (hOk : ∀ c st', st'.len = st.len → st'.len ≤ e.n → st'.pos ≤ e.n → Stop e st'.len → exN st' = exN st →
+          st'.pos = st.pos + 1 → st.pos + 1 ≤ st.len → (c.toNat ≠ 0 → e.rd st.pos = some c) → Q c st') :
+    Tri e st consume Q := s_consumeN 1 hl hp hs hFail hOk
+
+theorem s_ddDebug {Q : Unit → St → Prop} (k : Nat) (hl : st.len ≤ e.n) (hp : st.pos ≤ e.n) (hs : Stop e st.len)
+    (hk : k ≤ st.pos)
+    (h : ∀ st', st'.len = st.len → st'.len ≤ e.n → st'.pos ≤ e.n → Stop e st'.len → st'.pos = st.pos - k →
+          exN st' = 1 → exN st ≤ exN st' → Q () st') : Tri e st (ddDebug k) Q := by
+  apply tri_ddDebug k hk
+  intro st' h1 h2 h3
+  exact h st' h1 (by omega) (by omega) (by rw [h1]; exact hs) h2 h3 (by have := exN_le st; omega)
+
+theorem s_debugConsume {Q : Bool → St → Prop} (c : UInt8) (hc : c.toNat ≠ 0)
+    (hl : st.len ≤ e.n) (hp : st.pos ≤ e.n) (hs : Stop e st.len) (hpos : 0 < st.pos ∨ st.pos < st.len ∨ exN st = 1)
+    (hT : ∀ st', st'.len = st.len → st'.len ≤ e.n → st'.pos ≤ e.n → Stop e st'.len → exN st' = exN st →
+          st'.pos = st.pos + 1 → st.pos + 1 ≤ st.len → e.rd st.pos = some c → Q true st')
+    (hF : ∀ st', st'.len = st.len → st'.len ≤ e.n → st'.pos ≤ e.n → Stop e st'.len → exN st ≤ exN st' →
+          exN st' = 1 → st.pos ≤ st'.pos + (1 - exN st) → st'.pos ≤ st.pos + 1 →
+          (st.pos < st.len → st.pos ≤ st'.pos) → Q false st') :
+    Tri e st (debugConsume c) Q := by
+  apply tri_debugConsume c hc hl hs hpos
+  intro b st' h1 h2 h3 h4
+  cases b
+  · obtain ⟨h5, h6, h7, _, h9⟩ := h4 rfl
+    exact hF st' h1 (by omega) (by omega) (by rw [h1]; exact hs) h2 h5 h6 h7 h9
+  · obtain ⟨h5, h6, h7, h8⟩ := h3 rfl
+    exact hT st' h1 (by omega) (by omega) (by rw [h1]; exact hs) h7 h5 h6 h8
+
+/-- `if (dd_eof(dd)) A; B` -/
+theorem s_eof_if {β} {Q : β → St → Prop} {A B : M β} (hT : st.len ≤ st.pos → Tri e st A Q)
+    (hF : st.pos < st.len → Tri e st B Q) :
+    Tri e st (eof >>= fun b => if b = true then A else B) Q := by
+  apply tri_bind
+  apply s_eof
+  · intro h; simpa using hT h
+  · intro h; simpa using hF h
+
+/-- `DD_DEBUG_CONSUME(dd, c); B` with the macro's `return -1` being `A` -/
+theorem s_debugConsume_if {β} {Q : β → St → Prop} {A B : M β} (c : UInt8) (hc : c.toNat ≠ 0)
+    (hl : st.len ≤ e.n) (hp : st.pos ≤ e.n) (hs : Stop e st.len) (hpos : 0 < st.pos ∨ st.pos < st.len ∨ exN st = 1)
+    (hT : ∀ st', st'.len = st.len → st'.len ≤ e.n → st'.pos ≤ e.n → Stop e st'.len → exN st' = exN st →
+          st'.pos = st.pos + 1 → st.pos + 1 ≤ st.len → e.rd st.pos = some c → Tri e st' B Q)
+    (hF : ∀ st', st'.len = st.len → st'.len ≤ e.n → st'.pos ≤ e.n → Stop e st'.len → exN st ≤ exN st' →
+          exN st' = 1 → st.pos ≤ st'.pos + (1 - exN st) → st'.pos ≤ st.pos + 1 →
+          (st.pos < st.len → st.pos ≤ st'.pos) → Tri e st' A Q) :
+    Tri e st (debugConsume c >>= fun b => if (!b) = true then A else B) Q := by
+  apply tri_bind
+  apply s_debugConsume c hc hl hp hs hpos
+  · intro st' h1 h2 h3 h4 h5 h6 h7 h8
+    simpa using hT st' h1 h2 h3 h4 h5 h6 h7 h8
+  · intro st' h1 h2 h3 h4 h5 h6 h7 h8 h9
+    simpa using hF st' h1 h2 h3 h4 h5 h6 h7 h8 h9
+
+/-- actions that touch neither `pos` nor `len` nor `expected` -/
+class Neutral (m : M Unit) : Prop where
+  out : ∀ (e : Env) (st : St), ∃ st', m e st = .ok () st' ∧ st'.pos = st.pos ∧ st'.len = st.len ∧ st'.expected = st.expected
+
+instance : Neutral incLevel := ⟨fun _ _ => ⟨_, rfl, rfl, rfl, rfl⟩⟩
+instance : Neutral decLevel := ⟨fun _ _ => ⟨_, rfl, rfl, rfl, rfl⟩⟩
+instance : Neutral incType := ⟨fun _ _ => ⟨_, rfl, rfl, rfl, rfl⟩⟩
+instance : Neutral decType := ⟨fun _ _ => ⟨_, rfl, rfl, rfl, rfl⟩⟩
+instance (bs : List UInt8) : Neutral (appendBytes bs) := ⟨fun _ _ => ⟨_, rfl, rfl, rfl, rfl⟩⟩
+instance (bs : List UInt8) : Neutral (appendSeparator bs) := ⟨fun e st => by
+  unfold appendSeparator
+  by_cases h : st.firstName = true <;> simp [bind_def, getSt, h, modifySt, appendBytes, pure_def]⟩
+
+theorem s_neutral {Q : Unit → St → Prop} (m : M Unit) [hm : Neutral m] (hl : st.len ≤ e.n) (hp : st.pos ≤ e.n)
+    (hs : Stop e st.len)
+    (h : ∀ st', st'.pos = st.pos → st'.len = st.len → st'.len ≤ e.n → st'.pos ≤ e.n → Stop e st'.len →
+          exN st' = exN st → Q () st') : Tri e st m Q := by
+  obtain ⟨st', h1, h2, h3, h4⟩ := hm.out e st
+  exact ⟨(), st', h1, h st' h2 h3 (by omega) (by omega) (by rw [h3]; exact hs) (exN_eq_of h4)⟩
+
+theorem s_modifySt {Q : Unit → St → Prop} (f : St → St)
+    (hf : ∀ st, (f st).pos = st.pos ∧ (f st).len = st.len ∧ (f st).expected = st.expected)
+    (hl : st.len ≤ e.n) (hp : st.pos ≤ e.n) (hs : Stop e st.len)
+    (h : ∀ st', st'.pos = st.pos → st'.len = st.len → st'.len ≤ e.n → st'.pos ≤ e.n → Stop e st'.len →
+          exN st' = exN st → Q () st') : Tri e st (modifySt f) Q := by
+  obtain ⟨h2, h3, h4⟩ := hf st
+  exact ⟨(), f st, rfl, h _ h2 h3 (by omega) (by omega) (by rw [h3]; exact hs) (exN_eq_of h4)⟩
+
+end rules
+
+/-! ## C library helpers -/
+
+theorem u8_le_iff (a b : UInt8) : a ≤ b ↔ a.toNat ≤ b.toNat := UInt8.le_iff_toNat_le
+
+theorem isDigit_iff (c : UInt8) : isDigit c = true ↔ 48 ≤ c.toNat ∧ c.toNat ≤ 57 := by
+  simp [isDigit, u8_le_iff]
+
+theorem digitVal_range {c : UInt8} {d : Nat} (h : digitVal c = some d) :
+    c.toNat ≠ 0 ∧ c.toNat ≠ 46 ∧ c.toNat ≠ 64 := by
+  unfold digitVal at h
+  split at h
+  · rename_i h1
+    rw [isDigit_iff] at h1
+    omega
+  · split at h
+    · rename_i h1
+      simp [u8_le_iff] at h1
+      omega
+    · split at h
+      · rename_i h1
+        simp [u8_le_iff] at h1
+        omega
+      · cases h
+
+theorem scanDigits_spec (e : Env) (base : Nat) : ∀ (k i acc v j : Nat), scanDigits e base k i acc = (v, j) →
+    i ≤ j ∧ ∀ t, i ≤ t → t < j → ∃ c d, e.rd t = some c ∧ digitVal c = some d := by
+  intro k
+  induction k with
+  | zero =>
+    intro i acc v j h
+    simp [scanDigits] at h
+    exact ⟨by omega, fun t h1 h2 => by omega⟩
+  | succ k ih =>
+    intro i acc v j h
+    unfold scanDigits at h
+    split at h
+    · rename_i c hc
+      split at h
+      · rename_i d hd
+        split at h
+        · obtain ⟨h1, h2⟩ := ih _ _ _ _ h
+          refine ⟨by omega, fun t ht1 ht2 => ?_⟩
+          by_cases hti : t = i
+          · subst hti
+            exact ⟨c, d, hc, hd⟩
+          · exact h2 t (by omega) ht2
+        · simp at h
+          exact ⟨by omega, fun t h1 h2 => by omega⟩
+      · simp at h
+        exact ⟨by omega, fun t h1 h2 => by omega⟩
+    · simp at h
+      exact ⟨by omega, fun t h1 h2 => by omega⟩
+
+/-- a run of non-stop bytes starting at or before `l` ends at or before `l` -/
+theorem run_le_len {e : Env} {l i j : Nat} (hs : Stop e l) (hi : i ≤ l)
+    (h : ∀ t, i ≤ t → t < j → ∃ c d, e.rd t = some c ∧ digitVal c = some d) : j ≤ l := by
+  by_cases hj : j ≤ l
+  · exact hj
+  · exfalso
+    obtain ⟨c, d, hc, hd⟩ := h l hi (by omega)
+    obtain ⟨h0, h1, h2⟩ := digitVal_range hd
+    exact Nat.lt_irrefl _ (stop_strict hs hc (Nat.le_refl _) h0 h1 h2)
+
+
+
+theorem getD_eq_some {e : Env} {i : Nat} {c : UInt8} (h : (e.rd i).getD 0 = c) (hc : c.toNat ≠ 0) : e.rd i = some c := by
+  cases hr : e.rd i with
+  | none => simp [hr] at h; subst h; simp at hc
+  | some b => simp [hr] at h; subst h; rfl
+
+theorem scanDigits_first {e : Env} {base k i acc : Nat} {c : UInt8} {d : Nat} (hc : e.rd i = some c)
+    (hd : digitVal c = some d) (hb : d < base) :
+    i < (scanDigits e base (k + 1) i acc).2 := by
+  unfold scanDigits
+  simp only [hc, hd, hb, ↓reduceIte]
+  have := (scanDigits_spec e base k (i + 1) (acc * base + d) _ _ rfl).1
+  omega
+
+theorem strtoul0_spec {e : Env} {l i : Nat} {d : UInt8} (hs : Stop e l) (hl : l ≤ e.n) (hi : i < l)
+    (hd : e.rd i = some d) (hdig : isDigit d = true) :
+    i < (strtoul0 e i).2 ∧ (strtoul0 e i).2 ≤ l := by
+  have hdr := (isDigit_iff d).1 hdig
+  have hdv : digitVal d = some (d.toNat - 48) := by simp [digitVal, hdig]
+  have hk : e.n + 1 - i = (e.n - i) + 1 := by omega
+  unfold strtoul0
+  simp only [hd, Option.getD_some]
+  split
+  · rename_i hc
+    simp only [Bool.and_eq_true, Bool.or_eq_true, beq_iff_eq] at hc
+    obtain ⟨hc0, hc1⟩ := hc
+    have h1 : ∃ c1, e.rd (i + 1) = some c1 ∧ (c1.toNat = 120 ∨ c1.toNat = 88) := by
+      rcases hc1 with hc1 | hc1
+      · exact ⟨120, getD_eq_some hc1 (by decide), Or.inl rfl⟩
+      · exact ⟨88, getD_eq_some hc1 (by decide), Or.inr rfl⟩
+    obtain ⟨c1, hr1, hc1v⟩ := h1
+    have hi1 : i + 1 < l := stop_strict hs hr1 (by omega) (by omega) (by omega) (by omega)
+    split
+    · obtain ⟨hij, hrun⟩ := scanDigits_spec e 16 (e.n + 1 - i) (i + 2) 0 _ _ rfl
+      exact ⟨by omega, run_le_len hs (show i + 2 ≤ l by omega) hrun⟩
+    · exact ⟨by simp, by simp; omega⟩
+  · split
+    · rename_i hc0
+      have hc0 : d = 48 := by simpa using hc0
+      rw [hk]
+      have h1 := scanDigits_first (k := e.n - i) (acc := 0) (base := 8) hd hdv (by subst hc0; decide)
+      obtain ⟨_, hrun⟩ := scanDigits_spec e 8 (e.n - i + 1) i 0 _ _ rfl
+      exact ⟨h1, run_le_len hs (by omega) hrun⟩
+    · rw [hk]
+      have h1 := scanDigits_first (k := e.n - i) (acc := 0) (base := 10) hd hdv (by omega)
+      obtain ⟨_, hrun⟩ := scanDigits_spec e 10 (e.n - i + 1) i 0 _ _ rfl
+      exact ⟨h1, run_le_len hs (by omega) hrun⟩
+
+
+theorem u8_eq_iff (a b : UInt8) : a = b ↔ a.toNat = b.toNat := UInt8.toNat_inj.symm
+
+/-- normalise the char / Bool tests produced by `split` so that `omega` can use them -/
+macro "norm_tests" : tactic => `(tactic|
+  simp only [beq_iff_eq, bne_iff_ne, ne_eq, Bool.and_eq_true, Bool.or_eq_true, Bool.not_eq_true', Bool.not_eq_true,
+    Bool.not_true, Bool.not_false, decide_eq_true_eq, decide_eq_false_iff_not, Bool.decide_eq_true,
+    u8_eq_iff, UInt8.toNat_ofNat, ge_iff_le, gt_iff_lt, not_and, not_or, Nat.not_lt, Nat.not_le, Int.not_lt, Int.not_le,
+    Bool.false_eq_true, Bool.true_eq_false, not_false_eq_true, not_true_eq_false, true_implies, false_implies,
+    forall_const, and_true, true_and, implies_true, reduceCtorEq] at *)
+
+/-- close an arithmetic leaf goal -/
+macro "fin" : tactic => `(tactic| first | omega | ((try simp only [PeekFact] at *); (try norm_tests); omega))
+
+/-! ## the `wp` tactic and the leaf grammar functions -/
+
+attribute [local irreducible] M.bind M.pure peek curr consumeN consume posBack ddDebug debugConsume eof getSt getEnv getFixes modifySt incLevel decLevel incType decType appendBytes appendSeparator rdAt
+
+syntax "wp1" : tactic
+macro_rules | `(tactic| wp1) => `(tactic| first
+  | apply tri_pure
+  | (apply s_eof_if <;> intros <;> try (exfalso; omega))
+  | (apply s_debugConsume_if _ (by decide) (by assumption) (by assumption) (by assumption) (by fin) <;> intros)
+  | apply tri_bind
+  | (apply s_eof <;> intros <;> try (exfalso; omega))
+  | apply tri_getSt
+  | apply tri_getEnv
+  | apply tri_getFixes
+  | (apply s_peek _ (by assumption) (by assumption); intros)
+  | (apply s_curr (by assumption) (by assumption); intros)
+  | (apply s_consumeN _ (by assumption) (by assumption) (by assumption) <;> intros <;> try (exfalso; omega))
+  | (apply s_consume (by assumption) (by assumption) (by assumption) <;> intros <;> try (exfalso; omega))
+  | (apply s_debugConsume _ (by decide) (by assumption) (by assumption) (by assumption) (by fin) <;> intros)
+  | (apply s_ddDebug _ (by assumption) (by assumption) (by assumption) (by fin); intros)
+  | (apply s_neutral _ (by assumption) (by assumption) (by assumption); intros)
+  | (apply s_modifySt _ (by intro st; exact ⟨rfl, rfl, rfl⟩) (by assumption) (by assumption) (by assumption); intros)
+  | (simp only [Bool.not_true, Bool.not_false, Bool.false_eq_true, ↓reduceIte])
+  | (apply tri_ite <;> intro _)
+  | split
+  | (dsimp only))
+
+macro "wp" : tactic => `(tactic| (repeat' wp1))
+
+
+macro "leaf_close" h:ident : tactic => `(tactic| all_goals (apply $h <;> first | assumption | fin))
+
+section leaf
+variable {e : Env} {st : St}
+
+theorem s_qualifier {Q : Int → St → Prop} (hl : st.len ≤ e.n) (hp : st.pos ≤ e.n) (hs : Stop e st.len)
+    (h : ∀ r st', st'.len = st.len → st'.len ≤ e.n → st'.pos ≤ e.n → Stop e st'.len → exN st ≤ exN st' →
+      st.pos ≤ st'.pos → Q r st') : Tri e st qualifier Q := by
+  unfold qualifier
+  wp
+  leaf_close h
+
+theorem s_number {Q : Int → St → Prop} (hl : st.len ≤ e.n) (hp : st.pos ≤ e.n) (hs : Stop e st.len)
+    (h : ∀ r st', st'.len = st.len → st'.len ≤ e.n → st'.pos ≤ e.n → Stop e st'.len → exN st ≤ exN st' →
+      st.pos ≤ st'.pos → (0 ≤ r → st.pos < st'.pos) → Q r st') : Tri e st number Q := by
+  unfold number
+  apply tri_bind
+  apply tri_eof
+  split
+  · apply tri_pure
+    apply h <;> first | assumption | fin
+  rename_i hne
+  have hlt : st.pos < st.len := by fin
+  apply tri_bind
+  apply tri_getSt
+  dsimp only
+  apply tri_bind
+  apply tri_rdAt _ (by omega)
+  intro c hc
+  -- the continuation after the optional 'n'
+  have key : ∀ (st1 : St) (i : Nat), st1.len = st.len → st1.pos = i → i ≤ st.len → st.pos ≤ i → exN st1 = exN st →
+      Tri e st1 (do
+        let d ← rdAt i
+        if (!isDigit d) = true then do
+            ddDebug 0
+            pure (-1)
+          else do
+            let e ← getEnv
+            match strtoul0 e i with
+              | (num, j) => do
+                modifySt fun st => { st with pos := st.pos + (j - i) }
+                pure num) Q := by
+    intro st1 i h1 h2 h3 h4 h5
+    apply tri_bind
+    apply tri_rdAt _ (by omega)
+    intro d hd
+    split
+    · apply tri_bind
+      apply s_ddDebug 0 (by omega) (by omega) (by rw [h1]; exact hs) (by omega)
+      intros
+      apply tri_pure
+      apply h <;> first | assumption | fin
+    · rename_i hdig
+      have hdig : isDigit d = true := by simpa using hdig
+      have hdr := (isDigit_iff d).1 hdig
+      have hil : i < st.len := stop_strict hs hd h3 (by omega) (by omega) (by omega)
+      obtain ⟨hj1, hj2⟩ := strtoul0_spec hs hl hil hd hdig
+      apply tri_bind
+      apply tri_getEnv
+      split
+      rename_i num j heq
+      rw [heq] at hj1 hj2
+      simp only at hj1 hj2
+      apply tri_bind
+      apply tri_modifySt
+      apply tri_pure
+      apply h
+      · exact h1
+      · simp only; omega
+      · simp only; omega
+      · rw [h1]; exact hs
+      · simp only [exN] at *; omega
+      · simp only; omega
+      · intro _; simp only; omega
+  split
+  · apply tri_bind
+    apply tri_modifySt
+    exact key _ _ rfl rfl (by show st.pos + 1 ≤ st.len; omega) (by show st.pos ≤ st.pos + 1; omega) rfl
+  · exact key _ _ rfl rfl (by omega) (by omega) rfl
+
+macro_rules | `(tactic| wp1) => `(tactic| (apply s_number (by assumption) (by assumption) (by assumption); intros))
+macro_rules | `(tactic| wp1) => `(tactic| (apply s_qualifier (by assumption) (by assumption) (by assumption); intros))
+attribute [local irreducible] number qualifier
+
+theorem s_templateParam {Q : Int → St → Prop} (hl : st.len ≤ e.n) (hp : st.pos ≤ e.n) (hs : Stop e st.len)
+    (h : ∀ r st', st'.len = st.len → st'.len ≤ e.n → st'.pos ≤ e.n → Stop e st'.len → exN st ≤ exN st' →
+      st.pos ≤ st'.pos → (0 ≤ r → st.pos < st'.pos) → Q r st') : Tri e st templateParam Q := by
+  unfold templateParam
+  wp
+  leaf_close h
+
+theorem s_functionParam {Q : Int → St → Prop} (hl : st.len ≤ e.n) (hp : st.pos ≤ e.n) (hs : Stop e st.len)
+    (h : ∀ r st', st'.len = st.len → st'.len ≤ e.n → st'.pos ≤ e.n → Stop e st'.len → exN st ≤ exN st' →
+      st.pos ≤ st'.pos → (0 ≤ r → st.pos < st'.pos) → Q r st') : Tri e st functionParam Q := by
+  unfold functionParam
+  wp
+  leaf_close h
+
+theorem s_callOffset {Q : Int → St → Prop} (hl : st.len ≤ e.n) (hp : st.pos ≤ e.n) (hs : Stop e st.len)
+    (h : ∀ r st', st'.len = st.len → st'.len ≤ e.n → st'.pos ≤ e.n → Stop e st'.len → exN st ≤ exN st' →
+      st.pos ≤ st'.pos → (0 ≤ r → st.pos < st'.pos) → Q r st') : Tri e st callOffset Q := by
+  unfold callOffset
+  wp
+  leaf_close h
+
+theorem s_discriminator {Q : Int → St → Prop} (hl : st.len ≤ e.n) (hp : st.pos ≤ e.n) (hs : Stop e st.len)
+    (h : ∀ r st', st'.len = st.len → st'.len ≤ e.n → st'.pos ≤ e.n → Stop e st'.len → exN st ≤ exN st' →
+      st.pos ≤ st'.pos → (0 ≤ r → st.pos < st'.pos) → Q r st') : Tri e st discriminator Q := by
+  unfold discriminator
+  wp
+  leaf_close h
+
+macro_rules | `(tactic| wp1) => `(tactic| (apply s_templateParam (by assumption) (by assumption) (by assumption); intros))
+macro_rules | `(tactic| wp1) => `(tactic| (apply s_functionParam (by assumption) (by assumption) (by assumption); intros))
+macro_rules | `(tactic| wp1) => `(tactic| (apply s_callOffset (by assumption) (by assumption) (by assumption); intros))
+macro_rules | `(tactic| wp1) => `(tactic| (apply s_discriminator (by assumption) (by assumption) (by assumption); intros))
+
+end leaf
 
 end Uft.Demangle
